@@ -650,7 +650,38 @@ func genC03(g *Gen, tier string, w *bufio.Writer) {
 			fmt.Fprintf(&sb, " %d %d", g.Intn(4), g.Intn(3))
 		}
 		fmt.Fprintf(w, "gret %s %d %d%s\n", Pick(g, []string{"json", "csv", "batch_table"}), 1+g.Intn(2), rows, sb.String())
+		if i%3 == 0 {
+			fmt.Fprintf(w, "gcte %s %d%s\n", Pick(g, []string{"json", "csv", "batch_table"}), rows, sb.String())
+		}
 	}
+}
+
+// gcte <mode> <nrows> (<k> <v>)×nrows: a grouping CTE referenced twice, each reference reading other aggregates (the
+// optimizer prunes the unused ones per reference; the two references are the SAME physical node)
+func driveGcte(toks []string) string {
+	mode := toks[1]
+	rows, _ := strconv.Atoi(toks[2])
+	rest := toks[3:]
+	if len(rest) < 2*rows {
+		return "bad-op"
+	}
+	dir := scratchDir("gcte")
+	defer os.RemoveAll(dir)
+	var sb strings.Builder
+	sb.WriteString("k,v\n")
+	for r := 0; r < rows; r++ {
+		fmt.Fprintf(&sb, "%s,%s\n", rest[2*r], rest[2*r+1])
+	}
+	os.WriteFile(dir+"/t.csv", []byte(sb.String()), 0o644)
+	sql := "WITH g AS (SELECT t.k AS k, COUNT(*) AS c, SUM(t.v) AS s, MIN(t.v) AS lo, MAX(t.v) AS hi FROM t.csv t GROUP BY t.k) " +
+		"SELECT p.k1 AS k, p.lo1 AS lo, q.hi2 AS hi, q.c2 AS c FROM (SELECT k AS k1, lo AS lo1 FROM g) p JOIN (SELECT k AS k2, hi AS hi2, c AS c2 FROM g) q ON p.k1 = q.k2"
+	out := canonOutput(runOctosql(dir, nil, sql, "-o", mode), mode, "iiii")
+	parts := strings.Split(out, " | ")
+	if len(parts) > 1 && strings.HasPrefix(parts[0], "rows ") {
+		sort.Strings(parts[1:])
+		out = strings.Join(parts, " | ")
+	}
+	return out
 }
 
 func driveGret(toks []string) string {
@@ -899,6 +930,8 @@ func driveC03(toks []string) string {
 		return driveRes(toks[1], t)
 	case "gret":
 		return driveGret(toks)
+	case "gcte":
+		return driveGcte(toks)
 	}
 	mode, _, fileFmt, kinds, names, rows, sql := parseSelLine(toks)
 	optTok := toks[2]
